@@ -127,9 +127,9 @@ func doubleWalkDiff(ctx context.Context, changeFn ChangeFunc, a, b walkerFn, fil
 				if rmdir != "" && strings.HasPrefix(f1.path, rmdir) {
 					f1 = nil
 					continue
-				} else if rmdir == "" && f1.stat.IsDir() {
+				} else if f1.stat.IsDir() {
 					rmdir = f1.path + string(filepath.Separator)
-				} else if rmdir != "" {
+				} else {
 					rmdir = ""
 				}
 				f1 = nil
